@@ -24,7 +24,7 @@
 
 import ipaddress
 from io import BytesIO
-from typing import Any, Type, Dict, Tuple, Union, Set
+from typing import Any, Type, Dict, Tuple, Union, Set, Optional
 
 from .cip import (
     DataType,
@@ -57,17 +57,25 @@ __all__ = [
 ]
 
 
-def FixedSizeString(size_: int, len_type_: Union[DataType, Type[DataType]] = UDINT):
+def FixedSizeString(
+    size_: int,
+    len_type_: Union[DataType, Type[DataType]] = UDINT,
+    capacity_: Optional[int] = None,
+):
     """
-    Creates a custom string tag type
+    Creates a custom string tag type, ``size_`` is the size of the character data area and
+    ``capacity_`` the number of characters the string can hold (defaults to ``size_``).
+    Values longer than the capacity are truncated.
     """
 
     class FixedSizeString(StringDataType):
         size = size_
         len_type = len_type_
+        capacity = size_ if capacity_ is None else capacity_
 
         @classmethod
         def _encode(cls, value: str, *args, **kwargs) -> bytes:
+            value = value[: cls.capacity]
             return (
                 cls.len_type.encode(len(value))
                 + value.encode(cls.encoding)
